@@ -82,11 +82,13 @@ func (e Expectation) AssertValidity(notBefore, notAfter time.Time) error {
 	nbf := notBefore.Unix()
 	exp := notAfter.Unix()
 
-	if nbf > 0 && now+leeway < nbf {
+	// a claim which is not set is represented by the zero time. Any other value, including
+	// the epoch itself and instants before it, is a point in time the token's validity is bound to
+	if !notBefore.IsZero() && now+leeway < nbf {
 		return errorchain.NewWithMessage(ErrAssertion, "not yet valid")
 	}
 
-	if exp > 0 && now-leeway >= exp {
+	if !notAfter.IsZero() && now-leeway >= exp {
 		return errorchain.NewWithMessage(ErrAssertion, "expired")
 	}
 
